@@ -87,6 +87,11 @@ class New(cssutils.util._BaseClass):
             # handle next time
             return
 
+        if self._PREFIX is not None and typ == 'COMMENT':
+            # prefix|/**/name: the prefix is still to be combined with name
+            seq.append(val, typ, line=line, col=col)
+            return
+
         if self._PREFIX is not None:
             # as saved from before and reset to None
             prefix, self._PREFIX = self._PREFIX, None
@@ -154,6 +159,15 @@ class New(cssutils.util._BaseClass):
     def _S(self, expected, seq, token, tokenizer=None):
         # S
         context = self.context[-1]
+        if self._PREFIX is not None:
+            # "prefix| name" is no qualified name
+            self._PREFIX = None
+            self.wellformed = False
+            self._log.error(
+                'Selector: Unexpected white space after namespace prefix.',
+                token=token,
+            )
+            return expected
         if context.startswith('pseudo-'):
             if seq and (seq[-1].type == 'COMMENT' or seq[-1].value not in '+-'):
                 # e.g. x:func(a + b)
@@ -809,8 +823,10 @@ class Selector(cssutils.util.Base2):
                 typ == 'FUNCTION'
                 and tokens
                 and self._tokenvalue(tokens[-1]).startswith(':')
+                and not self._tokenvalue(tokens[-1]).endswith('(')
             ):
-                # pseudo-X: combine to :FUNCTION( or ::FUNCTION(
+                # pseudo-X: combine to :FUNCTION( or ::FUNCTION( but not
+                # ":a(" + "b("
                 if self._tokenvalue(tokens[-1]).startswith('::'):
                     t = 'pseudo-element'
                 else:
